@@ -650,8 +650,8 @@ def repeat_oracle(ctx):
         seen.add(f['label'])
         ctx.violation('a string slice/index with a parameter bound computes something else than Python for the CURRENT value of the parameter when the same query code '
                       'is executed again (real SQLite)',
-                      {'query': f['src'], 'parameter_values_of_successive_executions': f['history'], 'failing_execution': f['vals'],
-                       'groups(id,name,students)': data[:4]},
+                      {'1_query (one code object, called repeatedly)': f['src'], '2_parameter_values_of_successive_executions': f['history'],
+                       '3_failing_execution': f['vals'], '4_groups(id,name,students)': data[:4]},
                       observed=f['observed'][:8], expected=f['expected'][:8], key='sqlite:repeat:%s:%r' % (f['label'], f['history'][-2:]))
     db.disconnect()
 
